@@ -626,8 +626,8 @@ func isBenignLoser(err error) bool {
 // ErrNoRestoreInProgress, and only the set of restored chunks is checked.
 func judge(st *restoreState, steps []step, res []result, k int, deep bool, label func(string)) *verdict {
 	honestSig := func(err error) string {
-		if deep && strings.Contains(err.Error(), "max proof depth exceeded") {
-			return sigDepth
+		if deep {
+			return sigDepth // (trees beyond the verifier's depth limit: whatever the wording of the refusal)
 		}
 		return "restore-rejects-honest-chunk"
 	}
